@@ -25,6 +25,7 @@ class TProg:
         self.keys = set()
         self.rng = rng
         self.exits_at_end = []
+        self.kept = []
         self.nq = 0
 
     def gate(self, ref, h, el):
@@ -178,12 +179,22 @@ def gen(rng):
                 if rng.random() < 0.7:
                     main.append("    " + p.measure("o%d.f%d" % (b, i), h, i, echo=(rng.random() < 0.3)))
             # each tracked field is reported on its own when the object dies (before its qubits are reset)
-            main.append("    destroy o%d;" % b)
-            for i in range(k):
-                p.toks += ["EF", str(h), str(i), hx("%s.f%d" % (cname, i))]
-            p.toks += ["K", str(h)]; p.draws_per_shot += k
+            if rng.random() < 0.3 and not p.kept:
+                # ... or when the run ends, for an object still held by a static field
+                p.src_classes[-1] = p.src_classes[-1].replace("    public constructor()", "    public static %s keep = null;\n    public constructor()" % cname, 1)
+                main.append("    %s.keep = o%d;" % (cname, b))
+                p.kept.append((h, k, cname))
+            else:
+                main.append("    destroy o%d;" % b)
+                for i in range(k):
+                    p.toks += ["EF", str(h), str(i), hx("%s.f%d" % (cname, i))]
+                p.toks += ["K", str(h)]; p.draws_per_shot += k
     for h, key in p.exits_at_end:
         p.toks += ["E", str(h), hx(key)]
+    for h, k, cname in p.kept:
+        for i in range(k):
+            p.toks += ["EF", str(h), str(i), hx("%s.f%d" % (cname, i))]
+        p.toks += ["K", str(h)]; p.draws_per_shot += k      # released (and reset) when the evaluator is torn down after the shot
     p.body = main
     return p
 
